@@ -70,7 +70,7 @@ theorem kfdc_complete_walks_proof (inp : WalkInput) (walk : Nat → List Node) (
   refine ⟨_, hsat, ?_, hwv⟩
   intro i e
   unfold multOf
-  rw [hx i e, floor_toNat_natCast]
+  rw [hx i e, pyRoundCount_natCast]
   rfl
 
 /-- the walks of the k-model for `j` walks that the model can represent make it feasible -/
